@@ -19,6 +19,8 @@ def _sum(a):
 
 def _compact(ctx, name, shape, margin, nd):
     """leading axes (components) full, trailing nd axes zero within margin of the faces"""
+    if any(n - 2 * margin < 1 for n in shape[-nd:]):
+        raise RuntimeError(f"vacuous instance: no cell of a {tuple(shape[-nd:])} grid is {margin} cells away from every face")
     a = ctx.zeros(shape)
     inner = tuple(slice(None) for _ in range(len(shape) - nd)) + tuple(slice(margin, n - margin) for n in shape[-nd:])
     ishape = tuple(shape[: len(shape) - nd]) + tuple(n - 2 * margin for n in shape[-nd:])
